@@ -28,13 +28,16 @@ _values = st.one_of(
     st.booleans(), st.none(), st.sampled_from([1, "1", 1.0, "1.0", True, "True", None, "None"]))
 
 
+CLUSTERS = [[1, True, 1.0], [0, False, 0.0, -0.0], [2, 2.0], [10 ** 20, 1e20], [-1, -1.0]]
+
+
 @st.composite
 def salts(draw):
     k = draw(st.integers(0, 9))
     if k < 2:
         return None
     if k < 5:
-        return draw(st.sampled_from(["s", "", "é", "É", "salt-日本", "\U0001f9ea", "a'b", 'a"b', "\\", "tab\there", "\x00", "\x7f", "%s", "{}"]))
+        return draw(st.sampled_from(["s", "", "é", "É", "salt-日本", "\U0001f9ea", "a'b", 'a"b', "\\", "tab\there", "\x00", "\x7f", "%s", "{}", "a\rb", "\r", "\x0c", "\u2028", "\x85z"]))
     s = draw(st.text(alphabet=st.characters(exclude_categories=["Cs"], exclude_characters=M.LINE_BREAKS), max_size=20))
     return s
 
@@ -54,8 +57,12 @@ def cases(draw):
     body = M.ret([(M.lit_str("g%d" % j), ws[j]) for j in range(ng)])
     prog = M.program("exp", body, salt=salt, splitters=names, salt_q=q)
     inputs = []
+    cluster = draw(st.sampled_from(CLUSTERS)) if draw(st.integers(0, 3)) == 0 else None
     for _ in range(draw(st.integers(2, 6))):
         env = {n: draw(_values) for n in names}
+        if cluster is not None:
+            # ==-equal values that print differently, in generated order on one evaluator
+            env[names[0]] = draw(st.sampled_from(cluster))
         for extra in draw(st.lists(st.sampled_from(["extra1", "unused", "zzz", "other_field"]), max_size=2, unique=True)):
             env[extra] = draw(_values)
         inputs.append(M.enc_inputs(env))
